@@ -407,9 +407,30 @@ example : (∃ d ∈ trace (init T true false) tour, d.event = .CLIENT_FACADE_TE
      ((stepB T (init T true true) (.locate (.raises 1))).out.map (·.event)) =
        [.CLIENT_HAS_STATUS_SENSOR, .LOCATING_STARTED, .LOCATING_DISCOVERED_SPA, .LOCATING_FINISHED]) := by decide +kernel
 
-/-- the shipped `async_reset` has the D7 shape (this `example` is the only line that stops building when /repo is repaired:
-delete it then) -/
-example : resetClearsFacadeFirst T = true := by decide
+/-- `async_reset` as shipped at the audited commit, and with the proposed minimal repair (`self._facade = None` moved
+after the spa block).  Literals, so these examples keep building whichever of the two /repo contains. -/
+def shippedReset : List RStmt :=
+  [⟨none, [.clearDesc]⟩, ⟨some .facadeSome, [.facadeDisconnect, .clearFacade]⟩, ⟨some .spaSome, [.spaDisconnect, .clearSpa]⟩,
+   ⟨none, [.setState .IDLE]⟩]
+def patchedReset : List RStmt :=
+  [⟨none, [.clearDesc]⟩, ⟨some .facadeSome, [.facadeDisconnect]⟩, ⟨some .spaSome, [.spaDisconnect, .clearSpa]⟩,
+   ⟨none, [.clearFacade]⟩, ⟨none, [.setState .IDLE]⟩]
+
+/-- the hypotheses of `teardown_without_facade_witness` / `d7_full_fails` and of `teardown_bracketed` are both satisfiable;
+on the D7 history the shipped order delivers the teardown without a facade, the repaired order with one, and both land in
+the same clean IDLE state -/
+example : resetClearsFacadeFirst { T with resetProg := shippedReset } = true ∧
+    resetClearsFacadeFirst { T with resetProg := patchedReset } = false ∧
+    (let Ts : Table := { T with resetProg := shippedReset }
+     let m := runB Ts (init Ts true true) (d7History.take 2)
+     (stepB Ts m .reset).out.map (fun d => (d.event, d.facadeNone)) =
+       [(.CLIENT_FACADE_TEARDOWN, true), (.RUNNING_SPA_DISCONNECTED, true)]) ∧
+    (let Tp : Table := { T with resetProg := patchedReset }
+     let m := runB Tp (init Tp true true) (d7History.take 2)
+     (stepB Tp m .reset).out.map (fun d => (d.event, d.facadeNone)) =
+       [(.CLIENT_FACADE_TEARDOWN, false), (.RUNNING_SPA_DISCONNECTED, false)] ∧
+     (stepB Tp m .reset).m = (stepB { T with resetProg := shippedReset }
+        (runB { T with resetProg := shippedReset } (init T true true) (d7History.take 2)) .reset).m) := by decide +kernel
 
 /-- the bracket clause can fail: an unclosed phase is rejected -/
 example : closedFrom .CONNECTION_STARTED .CONNECTION_FINISHED false [.CONNECTION_STARTED, .CONNECTION_GOT_CHANNEL] = false ∧
